@@ -8,7 +8,7 @@ the resulting model netlists with reference semantics.
 import itertools
 
 from .gates import bool_gate
-from .minieval import Model, ModelRaise
+from .minieval import Model, ModelRaise, Unsupported
 from .typetables import NO_FANIN, NO_FANOUT, SINGLE_FANIN
 
 SUPPORTED = ["buf", "and", "or", "xor", "not", "nand", "nor", "xnor", "0", "1", "x", "input", "bb_input", "bb_output"]
@@ -497,10 +497,46 @@ class MNx(Model):
             stack.extend(reversed(list(g._succ[x])))
         return iter(out)
 
-    def find_cycle(self, g, source=None):
-        if g.is_dag():
-            raise ModelRaise("NetworkXNoCycle", "no cycle")
-        return [("?", "?")]
+    def find_cycle(self, g, source=None, orientation=None):
+        """networkx.find_cycle: a cycle among the nodes reachable from `source` (a node, an iterable of nodes, or None =
+        every node), as a list of edges; NetworkXNoCycle when there is none *there* - a cycle no source reaches is not found."""
+        if orientation not in (None, "original"):
+            raise Unsupported(f"find_cycle orientation={orientation!r}")
+        if source is None:
+            starts = list(g._node)
+        elif isinstance(source, (str, tuple)) and source in g._node:
+            starts = [source]
+        else:
+            starts = [n for n in source if n in g._node]
+        for st in starts:
+            reach = {st} | g.descendants(st)
+            for x in sorted(reach, key=str):
+                if x in g._succ[x]:
+                    return [(x, x)]
+                # shortest path x -> ... -> x inside reach
+                prev = {}
+                frontier = [x]
+                found = None
+                while frontier and found is None:
+                    nxt = []
+                    for u in frontier:
+                        for v in g._succ[u]:
+                            if v == x:
+                                found = u
+                                break
+                            if v not in prev and v != x:
+                                prev[v] = u
+                                nxt.append(v)
+                        if found is not None:
+                            break
+                    frontier = nxt
+                if found is not None:
+                    path = [found]
+                    while path[-1] != x:
+                        path.append(prev[path[-1]])
+                    path.reverse()
+                    return list(zip(path, path[1:] + [x]))
+        raise ModelRaise("NetworkXNoCycle", "No cycle found.")
 
     def immediate_dominators(self, g, start):
         # dominators by the iterative definition on the reachable subgraph
